@@ -50,8 +50,25 @@ type symStr struct {
 
 // absArr is a content-abstract byte array: loads return fresh bytes, stores are dropped.
 type absArr struct {
-	n    int
-	name string
+	n     int
+	name  string
+	known map[int]value // bytes stored at concrete positions and not overwritten since
+}
+
+// forget drops the known bytes at positions >= from (all of them when from is symbolic).
+func (a *absArr) forget(from *Term) {
+	if a.known == nil {
+		return
+	}
+	if !from.isConst() {
+		a.known = nil
+		return
+	}
+	for i := range a.known {
+		if i >= int(from.val) {
+			delete(a.known, i)
+		}
+	}
 }
 
 type sliceV struct {
